@@ -142,6 +142,7 @@ pub fn known_findings() -> BTreeMap<String, (String, String)> {
 pub fn run_chunk(prop: &str, batch_seed: u64, from: u64, to: u64, fixed_family: Option<&str>) -> Stats {
     let p = spec(prop).expect("unknown property");
     let known = known_findings();
+    let hunt = std::env::var("VERIF_HUNT").ok();
     let mut st = Stats::default();
     for i in from..to {
         let fam = fixed_family.unwrap_or_else(|| family_of(p, batch_seed, i));
@@ -210,7 +211,12 @@ pub fn run_chunk(prop: &str, batch_seed: u64, from: u64, to: u64, fixed_family: 
                 *st.other_props_seen.entry(v.prop.to_string()).or_default() += 1;
                 continue;
             }
-            if let Some(k) = v.known {
+            if let Some(h) = &hunt {
+                // triage mode: only the named finding signature counts
+                if v.known != Some(h.as_str()) {
+                    continue;
+                }
+            } else if let Some(k) = v.known {
                 if known.get(k).map(|x| x.0 == "known").unwrap_or(false) {
                     *st.known_seen.entry(k.to_string()).or_default() += 1;
                     continue;
